@@ -69,6 +69,11 @@ pub fn shards(tier: &str) -> Vec<String> {
     // operations, drops and collections on one manager from inside a session of another manager (the calling
     // thread's allocator state belongs to the other store): depth-4 histories with the reference-count audit
     v.extend(crate::hist::shards_for(&["bdd"], &["n32c16t1x"], 1).into_iter().map(|s| format!("hist:{s}")));
+    // a diagram 30000 levels deep on a two-worker manager: the recursion of an operation issued by an
+    // application thread runs on the manager's own workers (large stacks), not on the caller's stack
+    for k in ["bdd", "bcdd"] {
+        v.push(format!("deep:{k}:t2"));
+    }
     // loom model of the apply-cache bucket lock (code derived from /repo's source text)
     v.extend(super::loomx::spinlock_shards());
     for s in ["m1", "m2"] {
@@ -82,11 +87,67 @@ pub fn run(ctx: &mut Ctx) {
     if ctx.shard.starts_with("loom:") {
         return super::loomx::run_spinlock(ctx);
     }
+    if let Some(rest) = ctx.shard.clone().strip_prefix("deep:") {
+        return match rest.split(':').next().unwrap() {
+            "bdd" => deep::<Bdd>(ctx),
+            _ => deep::<Bcdd>(ctx),
+        };
+    }
     if let Some(rest) = ctx.shard.clone().strip_prefix("hist:") {
         ctx.shard = rest.to_string();
         return crate::hist::run_shard(ctx, crate::hist::Prop::C05, 4);
     }
     run_script_shard(ctx)
+}
+
+/// x0 & ... & x_{n-1} (built bottom-up, recursion depth 1 per step), then operations whose recursion visits
+/// every level; a stack overflow kills the worker process and is reported as its death
+fn deep<K: QOps>(ctx: &mut Ctx)
+where
+    MRefOf<K>: Send + Sync,
+{
+    const N: u32 = 30_000;
+    ctx.group(&format!("{} {N} levels deep, 2 workers", K::NAME), |ctx| {
+        let mref: MRefOf<K> = K::new_manager(8 * N as usize, 1 << 16, 2);
+        mref.with_manager_exclusive(|m| {
+            m.add_vars(N);
+        });
+        let var = |i: u32| mref.with_manager_shared(|m| K::F::var(m, i)).unwrap();
+        let mut conj = mref.with_manager_shared(|m| K::F::t(m));
+        for i in (0..N).rev() {
+            conj = var(i).and(&conj).unwrap();
+        }
+        let last = var(N - 1);
+        let mut bad = |ctx: &mut Ctx, what: &str, msg: String| {
+            ctx.viol(attrs(&[("kind", K::NAME), ("script", "deep"), ("class", what)]), json!({"kind": K::NAME, "levels": N, "workers": 2}), &format!("{} diagram with {N} levels on a two-worker manager: {msg}", K::NAME));
+        };
+        // every operation below recurses through all levels
+        let h = conj.xor(&last).unwrap();
+        let neg = conj.not().unwrap();
+        let eval = |f: &K::F, falses: &[u32]| f.eval((0..N).map(|v| (v, !falses.contains(&v))));
+        for (falses, exp_h, exp_neg) in [(&[][..], false, false), (&[0][..], true, true), (&[N - 1][..], false, true), (&[N / 2][..], true, true)] {
+            ctx.count("evaluations", 2);
+            if eval(&h, falses) != exp_h {
+                bad(ctx, "wrong_value", format!("(x0 & ... & x{}) xor x{} evaluates to {} with the variables {falses:?} false and all others true", N - 1, N - 1, !exp_h));
+            }
+            if eval(&neg, falses) != exp_neg {
+                bad(ctx, "wrong_value", format!("!(x0 & ... & x{}) evaluates to {} with the variables {falses:?} false and all others true", N - 1, !exp_neg));
+            }
+        }
+        ctx.count("evaluations", 3);
+        if h.xor(&last).unwrap() != conj {
+            bad(ctx, "not_canonical", "(conj xor x_last) xor x_last is not the handle of conj".into());
+        }
+        if neg.not().unwrap() != conj {
+            bad(ctx, "not_canonical", "!!conj is not the handle of conj".into());
+        }
+        let (f, t) = mref.with_manager_shared(|m| (K::F::f(m), K::F::t(m)));
+        if conj.and(&neg).unwrap() != f || conj.or(&neg).unwrap() != t {
+            bad(ctx, "not_canonical", "conj & !conj / conj | !conj are not the constants".into());
+        }
+        ctx.count("nontrivial", 11);
+        ctx.outcome(&format!("deep:{}:done", K::NAME));
+    });
 }
 
 type CountCache = oxidd::util::SatCountCache<oxidd::util::num::Saturating<u64>, std::hash::BuildHasherDefault<oxidd::util::FxHasher>>;
